@@ -45,7 +45,7 @@ theorem InvX.mono {orph : List Nat} {h : Hub} (hi : InvX orph h) (v : Nat)
   obtain ⟨f1, f2, f3, f4, f5, f6, f7, f8, f9, f10, f11, f12, f13, f14, f15, f16, f17, f18, f19, f20, f21, f22, f23⟩ := hi
   constructor
   all_goals first | assumption | skip
-  · intro w x hx hk; have := f14 w x hx hk; grind
+  · intro w x hx hk; have := f13 w x hx hk; grind
   · intro w hw y hy; simp at hw; grind
 
 theorem facts_vtable : Generated.Hub.vtableClearedOnClose = true := by decide
@@ -57,7 +57,7 @@ theorem InvX.shrink_dead {orph : List Nat} {h : Hub} (hi : InvX orph h) (v : Nat
   obtain ⟨f1, f2, f3, f4, f5, f6, f7, f8, f9, f10, f11, f12, f13, f14, f15, f16, f17, f18, f19, f20, f21, f22, f23⟩ := hi
   constructor
   all_goals first | assumption | skip
-  · intro w x hx hk; have := f14 w x hx hk; grind [mem_removeL]
+  · intro w x hx hk; have := f13 w x hx hk; grind [mem_removeL]
   · intro w hw y hy; have := f23 w; grind [mem_removeL]
 
 /-- First step of closing virtual session `v`: its parent forgets it. -/
@@ -71,7 +71,7 @@ theorem dropChild_inv {orph : List Nat} {h : Hub} (hi : InvX orph h) {v : Nat} {
   | some p =>
     simp only []
     obtain ⟨f1, f2, f3, f4, f5, f6, f7, f8, f9, f10, f11, f12, f13, f14, f15, f16, f17, f18, f19, f20, f21, f22, f23⟩ := hm
-    have hne : x.parent ≠ v := (f14 v x hx hk).2.2.1
+    have hne : x.parent ≠ v := (f13 v x hx hk).2.2.1
     constructor
     all_goals (intros; simp only [hubf] at *; grind [mem_removeL, removeL_nil])
 
@@ -161,11 +161,11 @@ theorem dropClient_inv {h : Hub} (hi : Inv h) {s : Nat} {x : Sess} (hx : h.sess 
   unfold dropClient
   obtain ⟨f1, f2, f3, f4, f5, f6, f7, f8, f9, f10, f11, f12, f13, f14, f15, f16, f17, f18, f19, f20, f21, f22, f23⟩ := hi
   have hch : ∀ v, v ∈ x.children → ∃ vx, h.sess v = some vx ∧ vx.kind = .virtual ∧ vx.parent = s :=
-    fun v hv => f15 s x v hx hv
+    fun v hv => f14 s x v hx hv
   have hcu : ∀ c s1 s2 x1 x2, h.sess s1 = some x1 → x1.conn = some c → h.sess s2 = some x2 → x2.conn = some c → s1 = s2 := by
     intro c s1 s2 x1 x2 h1 h2 h3 h4
-    have a1 := (f17 c s1).mpr ⟨x1, h1, h2⟩
-    have a2 := (f17 c s2).mpr ⟨x2, h3, h4⟩
+    have a1 := (f16 c s1).mpr ⟨x1, h1, h2⟩
+    have a2 := (f16 c s2).mpr ⟨x2, h3, h4⟩
     rw [a1] at a2; cases a2; rfl
   by_cases hu : x.user = "" <;> cases hc : x.conn <;>
     simp only [hu, ne_eq, not_true_eq_false, not_false_eq_true, if_true, if_false] <;> constructor
@@ -191,27 +191,30 @@ theorem foldl_removeL_self (l : List Nat) : l.foldl removeL l = [] := by
   have := (mem_foldl_removeL l l t).mp ht
   exact this.2 this.1
 
-/-- Closing a virtual session never changes the kind of any other session. -/
-theorem closeVirtual_kind {orph : List Nat} (a : Acc) (v : Nat) (hi : InvX orph a.h)
+/-- Closing a virtual session never changes kind or connection of any other session, and the
+session itself is gone afterwards. -/
+theorem closeVirtual_sess {orph : List Nat} (a : Acc) (v : Nat) (hi : InvX orph a.h)
     (hk : ∀ x, a.h.sess v = some x → x.kind = .virtual) (t : Nat) :
-    ∀ x', (closeVirtual a v).h.sess t = some x' → ∃ x, a.h.sess t = some x ∧ x'.kind = x.kind := by
+    ∀ x', (closeVirtual a v).h.sess t = some x' →
+      ∃ x, a.h.sess t = some x ∧ x'.kind = x.kind ∧ x'.conn = x.conn ∧ x'.backend = x.backend ∧
+        ((a.h.sess v).isSome = true → t ≠ v) := by
   unfold closeVirtual
   cases hx : a.h.sess v with
-  | none => intro x' h; exact ⟨x', h, rfl⟩
+  | none => intro x' h; exact ⟨x', h, rfl, rfl, rfl, by simp⟩
   | some x =>
     simp only []
     have h1 := dropChild_inv hi hx (hk x hx)
     generalize hp : modSess a.h x.parent (fun p => { p with children := removeL p.children v }) = hub1 at h1
-    have hm : ∀ y', hub1.sess t = some y' → ∃ y, a.h.sess t = some y ∧ y'.kind = y.kind := by
+    have hm : ∀ y', hub1.sess t = some y' → ∃ y, a.h.sess t = some y ∧ y'.kind = y.kind ∧ y'.conn = y.conn ∧ y'.backend = y.backend := by
       rw [← hp]; unfold modSess
       cases hpar : a.h.sess x.parent with
-      | none => intro y' h; exact ⟨y', h, rfl⟩
+      | none => intro y' h; exact ⟨y', h, rfl, rfl, rfl⟩
       | some p =>
         simp only [hubf]
         intro y' h
         by_cases e : t = x.parent
-        · simp only [e, if_true] at h; cases h; rw [e]; exact ⟨p, hpar, rfl⟩
-        · simp only [e, if_false] at h; exact ⟨y', h, rfl⟩
+        · simp only [e, if_true] at h; cases h; rw [e]; exact ⟨p, hpar, rfl, rfl, rfl⟩
+        · simp only [e, if_false] at h; exact ⟨y', h, rfl, rfl, rfl⟩
     have hs := leaveRoom_sess { a with h := hub1 } v h1 t
     intro x' hx'
     unfold dropVirtual at hx'
@@ -233,7 +236,7 @@ theorem foldl_closeVirtual_inv : ∀ (l : List Nat) (orph : List Nat) (a : Acc),
     have hkv := hk v (List.mem_cons_self)
     apply ih _ _ (closeVirtual_inv a v hi hkv)
     intro w hw x' hx'
-    obtain ⟨x, hx, e⟩ := closeVirtual_kind a v hi hkv w x' hx'
+    obtain ⟨x, hx, e, _⟩ := closeVirtual_sess a v hi hkv w x' hx'
     rw [e]; exact hk w (List.mem_cons_of_mem _ hw) x hx
 
 theorem closeClient_inv (a : Acc) (s : Nat) (hi : Inv a.h)
@@ -274,5 +277,160 @@ theorem closeConn_inv {h : Hub} (hi : Inv h) (c : Nat) (hc : ∀ s x, h.sess s =
   obtain ⟨f1, f2, f3, f4, f5, f6, f7, f8, f9, f10, f11, f12, f13, f14, f15, f16, f17, f18, f19, f20, f21, f22, f23⟩ := hi
   constructor
   all_goals (intros; simp only [hubf] at *; grind [mem_removeL])
+
+end SigModel.Hub
+
+namespace SigModel.Hub
+
+/-- `Rel a a'`: every session of `a'` existed in `a` with the same kind, connection and backend. -/
+def SubSess (h h' : Hub) : Prop :=
+  ∀ t x', h'.sess t = some x' → ∃ x, h.sess t = some x ∧ x'.kind = x.kind ∧ x'.conn = x.conn ∧ x'.backend = x.backend
+
+theorem SubSess.refl (h : Hub) : SubSess h h := fun _ x' hx => ⟨x', hx, rfl, rfl, rfl⟩
+
+theorem SubSess.trans {h1 h2 h3 : Hub} (a : SubSess h1 h2) (b : SubSess h2 h3) : SubSess h1 h3 := by
+  intro t x3 h3'
+  obtain ⟨x2, h2', e1, e2, e3⟩ := b t x3 h3'
+  obtain ⟨x1, h1', f1, f2, f3⟩ := a t x2 h2'
+  exact ⟨x1, h1', e1.trans f1, e2.trans f2, e3.trans f3⟩
+
+theorem SubSess.of_core {h h' : Hub} (e : CoreEq h h') : SubSess h h' := by
+  intro t x' hx'
+  have := e.sess_fields t
+  grind
+
+theorem closeVirtual_sub {orph : List Nat} (a : Acc) (v : Nat) (hi : InvX orph a.h)
+    (hk : ∀ x, a.h.sess v = some x → x.kind = .virtual) : SubSess a.h (closeVirtual a v).h := by
+  intro t x' hx'
+  obtain ⟨x, h1, h2, h3, h4, _⟩ := closeVirtual_sess a v hi hk t x' hx'
+  exact ⟨x, h1, h2, h3, h4⟩
+
+theorem closeVirtual_gone {orph : List Nat} (a : Acc) (v : Nat) (hi : InvX orph a.h)
+    (hk : ∀ x, a.h.sess v = some x → x.kind = .virtual) : (closeVirtual a v).h.sess v = none := by
+  cases h : (closeVirtual a v).h.sess v with
+  | none => rfl
+  | some x' =>
+    obtain ⟨x, h1, _, _, _, h5⟩ := closeVirtual_sess a v hi hk v x' h
+    exact absurd rfl (h5 (by simp [h1]))
+
+theorem foldl_closeVirtual_sub : ∀ (l : List Nat) (orph : List Nat) (a : Acc), InvX orph a.h →
+    (∀ v, v ∈ l → ∀ x, a.h.sess v = some x → x.kind = .virtual) →
+    SubSess a.h (l.foldl closeVirtual a).h := by
+  intro l
+  induction l with
+  | nil => intro orph a _ _; exact SubSess.refl _
+  | cons v l ih =>
+    intro orph a hi hk
+    simp only [List.foldl_cons]
+    have hkv := hk v (List.mem_cons_self)
+    refine (closeVirtual_sub a v hi hkv).trans (ih _ _ (closeVirtual_inv a v hi hkv) ?_)
+    intro w hw x' hx'
+    obtain ⟨x, hx, e, _⟩ := closeVirtual_sess a v hi hkv w x' hx'
+    rw [e]; exact hk w (List.mem_cons_of_mem _ hw) x hx
+
+theorem leaveRoom_sub {orph : List Nat} (a : Acc) (s : Nat) (hi : InvX orph a.h) :
+    SubSess a.h (leaveRoom a s).1.h := by
+  intro t x' hx'
+  have := leaveRoom_sess a s hi t
+  grind
+
+theorem closeClient_sub (a : Acc) (s : Nat) (hi : Inv a.h)
+    (hk : ∀ x, a.h.sess s = some x → x.kind ≠ .virtual) :
+    SubSess a.h (closeClient a s).h ∧ (closeClient a s).h.sess s = none := by
+  unfold closeClient
+  cases hx : a.h.sess s with
+  | none => exact ⟨SubSess.refl _, hx⟩
+  | some x0 =>
+    simp only []
+    have h1 := leaveRoom_inv a s hi
+    have hsub1 := leaveRoom_sub a s hi
+    have hs := leaveRoom_sess a s hi s
+    simp only [hx, if_true] at hs
+    rcases hs with ⟨h0, _⟩ | ⟨y, x, hy, hx1, e1, e2, e3, e4, e5, e6, e7, e8⟩
+    · cases h0
+    · cases hy
+      simp only [hx1]
+      have hd := dropClient_inv h1 hx1 (by rw [e2]; exact hk _ hx) e8
+      have hdsess : ∀ t, (dropClient (leaveRoom a s).1.h s x).sess t = if t = s then none else (leaveRoom a s).1.h.sess t := by
+        intro t; unfold dropClient
+        by_cases hu : x.user = "" <;> cases hc : x.conn <;>
+          simp only [hu, ne_eq, not_true_eq_false, not_false_eq_true, if_true, if_false, hubf]
+      have hsub2 : SubSess (leaveRoom a s).1.h (dropClient (leaveRoom a s).1.h s x) := by
+        intro t x' hx'; rw [hdsess] at hx'
+        by_cases e : t = s
+        · simp [e] at hx'
+        · simp only [e, if_false] at hx'; exact ⟨x', hx', rfl, rfl, rfl⟩
+      have hsub3 := foldl_closeVirtual_sub x.children x.children
+        { (leaveRoom a s).1 with h := dropClient (leaveRoom a s).1.h s x } hd
+        (by intro v hv y hy; exact hd.orph_virt v hv y hy)
+      refine ⟨(hsub1.trans hsub2).trans hsub3, ?_⟩
+      cases hfin : (List.foldl closeVirtual { (leaveRoom a s).1 with h := dropClient (leaveRoom a s).1.h s x } x.children).h.sess s with
+      | none => rfl
+      | some z =>
+        obtain ⟨z', hz', _⟩ := hsub3 s z hfin
+        simp only [hdsess, if_true] at hz'
+        cases hz'
+
+theorem closeSession_sub (a : Acc) (s : Nat) (hi : Inv a.h) :
+    SubSess a.h (closeSession a s).h ∧ (closeSession a s).h.sess s = none := by
+  unfold closeSession
+  cases hx : a.h.sess s with
+  | none => exact ⟨SubSess.refl _, hx⟩
+  | some x =>
+    simp only []
+    by_cases hk : x.kind = .virtual
+    · simp only [hk, if_true]
+      have hkv : ∀ y, a.h.sess s = some y → y.kind = .virtual := by intro y hy; rw [hx] at hy; cases hy; exact hk
+      exact ⟨closeVirtual_sub a s hi hkv, closeVirtual_gone a s hi hkv⟩
+    · simp only [hk, if_false]
+      exact closeClient_sub a s hi (by intro y hy; rw [hx] at hy; cases hy; exact hk)
+
+end SigModel.Hub
+
+namespace SigModel.Hub
+
+theorem conn_unique {h : Hub} (hi : Inv h) {c s1 s2 : Nat} {x1 x2 : Sess}
+    (h1 : h.sess s1 = some x1) (h2 : x1.conn = some c) (h3 : h.sess s2 = some x2) (h4 : x2.conn = some c) : s1 = s2 := by
+  have a1 := (hi.conn_iff c s1).mpr ⟨x1, h1, h2⟩
+  have a2 := (hi.conn_iff c s2).mpr ⟨x2, h3, h4⟩
+  rw [a1] at a2; cases a2; rfl
+
+/-- Closing a session and then its connection. -/
+theorem closeSessionConn_inv (a : Acc) (s : Nat) (hi : Inv a.h) {x : Sess} {c : Nat}
+    (hx : a.h.sess s = some x) (hc : x.conn = some c) : Inv (closeConn (closeSession a s).h c) := by
+  obtain ⟨hsub, hgone⟩ := closeSession_sub a s hi
+  apply closeConn_inv (closeSession_inv a s hi)
+  intro t y hy hyc
+  obtain ⟨y0, hy0, _, e2, _⟩ := hsub t y hy
+  have := conn_unique hi hy0 (by rw [← e2]; exact hyc) hx hc
+  subst this
+  rw [hgone] at hy; cases hy
+
+theorem flushCloses_inv (a : Acc) (hi : Inv a.h) : Inv (flushCloses a).h := by
+  unfold flushCloses
+  have gen : ∀ (l : List Nat) (a : Acc), Inv a.h →
+      Inv (l.foldl (fun a s =>
+        match a.h.sess s with
+        | none => a
+        | some x =>
+          let a1 := closeSession a s
+          match x.conn with
+          | some c => { a1 with h := closeConn a1.h c }
+          | none => a1) a).h := by
+    intro l
+    induction l with
+    | nil => intro a hi; exact hi
+    | cons s l ih =>
+      intro a hi
+      simp only [List.foldl_cons]
+      apply ih
+      cases hx : a.h.sess s with
+      | none => exact hi
+      | some x =>
+        simp only []
+        cases hc : x.conn with
+        | none => exact closeSession_inv a s hi
+        | some c => exact closeSessionConn_inv a s hi hx hc
+  exact gen a.closes { a with closes := [] } hi
 
 end SigModel.Hub
